@@ -1341,12 +1341,23 @@ func (c *compiler) checkIdentifierLName(name unistring.String, offset int) {
 // TODO: make sure variable lookups do not de-optimise parent scopes
 func (c *compiler) enterDummyMode() (leaveFunc func()) {
 	savedBlock, savedProgram := c.block, c.p
-	if savedBlock != nil {
-		c.block = &block{
-			typ:      savedBlock.typ,
-			label:    savedBlock.label,
-			outer:    savedBlock.outer,
-			breaking: savedBlock.breaking,
+	// Shadow the whole block chain, not just the current block: a break/continue compiled in dummy mode may
+	// target (or pass through) any outer block and must not be registered there.
+	shadows := make(map[*block]*block)
+	link := &c.block
+	for b := savedBlock; b != nil; b = b.outer {
+		shadow := &block{
+			typ:      b.typ,
+			label:    b.label,
+			breaking: b.breaking,
+		}
+		shadows[b] = shadow
+		*link = shadow
+		link = &shadow.outer
+	}
+	for _, shadow := range shadows {
+		if b := shadows[shadow.breaking]; b != nil {
+			shadow.breaking = b
 		}
 	}
 	c.p = &Program{
